@@ -47,6 +47,13 @@ def _stream(rng, gen: int):
             frames.append(framegen.foreign_address_frame(rng, gen)[0])  # traffic of another client on the same link
         else:
             frames.append(framegen.frame(rng, gen)[0])
+    if rng.random() < 0.1:
+        # a frame repeated verbatim - packet id and all - directly behind itself (a console repeats its broadcasts), with more
+        # traffic behind the pair
+        i = rng.randrange(len(frames))
+        frames.insert(i, frames[i])
+        if i + 2 >= len(frames):
+            frames.append(framegen.frame(rng, gen)[0])
     if rng.random() < 0.08:
         # two frames with the very same data section and different message types (the data section alone does not say what
         # a frame is: two empty requests, or the same bytes under two unknown types), not necessarily adjacent
